@@ -174,7 +174,11 @@ func c04Scenarios(tier string) []*Scenario {
 	add("open-race", []Spec{CB(1, Long)}, 0, []ExeSpec{{Script: fail(0)}, {Script: ok(0)}, {Script: ok(0)}}, true)
 	add("open-race-dur", []Spec{CB(1, Long)}, 0, []ExeSpec{{Script: fail(10)}, {Script: ok(10)}, {Script: ok(5), StartAt: 10}}, true)
 	add("open-race-t2", []Spec{CB(2, Long)}, 0, []ExeSpec{{Script: fail(0)}, {Script: fail(0)}, {Script: ok(0)}}, true)
-	add("open-race-async", []Spec{CB(1, Long)}, 0, []ExeSpec{{Script: fail(0), Async: true}, {Script: ok(0), Async: true}, {Script: ok(0)}}, true)
+	add("open-race-async", []Spec{CB(1, Long)}, 0, []ExeSpec{{Script: fail(0), Async: true}, {Script: ok(0), Async: true}}, true)
+	if tier == "thorough" {
+		// five threads: two async runners, their callers and a third execution (a third of a minute on its own at bound 2)
+		add("open-race-async3", []Spec{CB(1, Long)}, 0, []ExeSpec{{Script: fail(0), Async: true}, {Script: ok(0), Async: true}, {Script: ok(0)}}, true)
+	}
 	standalone := func(env *Env) {
 		cb := env.Breakers[0]
 		env.obs()
